@@ -13,16 +13,21 @@
      NV.CramRec.SliceHeader reference context / counters / MD5 interval of slice and container headers
                            (io/writer/container/slice.rs, container/reference_sequence_context.rs,
                            io/writer/container.rs, io/writer.rs)
+     NV.CramRec.File       the file: records -> chunks of records_per_slice -> slices -> reader, slice after
+                           slice (io/writer.rs, io/writer/container.rs, io/reader/container/slice.rs);
+                           mate_indices with the bound test in binary; read_mate on hostile CF / NF
      NV.CramRec.Container  build_container bookkeeping (io/writer/container.rs), Block::size and
                            write_block (io/writer/container/block.rs), record counters (io/writer.rs) *)
 From Coq Require Import List NArith ZArith.
-From NV Require Import CramRec.Features CramRec.FeaturesProofs CramRec.FeaturesTotal CramRec.FeaturesMissing CramRec.Container CramRec.ContainerProofs CramRec.ContainerItf8 CramRec.Mates CramRec.MatesProofs CramRec.MatesChain CramRec.MatesWriter CramRec.MatesLoop CramRec.MatesBytes CramRec.MatesBytesProofs CramRec.SliceHeader CramRec.SliceHeaderProofs.
+From NV Require Import CramRec.Features CramRec.FeaturesProofs CramRec.FeaturesTotal CramRec.FeaturesMissing CramRec.Container CramRec.ContainerProofs CramRec.ContainerItf8 CramRec.Mates CramRec.MatesProofs CramRec.MatesChain CramRec.MatesWriter CramRec.MatesLoop CramRec.MatesBytes CramRec.MatesBytesProofs CramRec.SliceHeader CramRec.SliceHeaderProofs CramRec.File CramRec.FileProofs CramRec.FileRender CramRec.FileNames CramRec.FileNamesProofs.
 Import ListNotations.
 Open Scope N_scope.
 
 (* ------------------------------------------------------------------------------------------ *)
-(* The full file-level statement, kept visible; it is NOT proved (the end-to-end claim is      *)
-(* exercised on the implementation by the `rt` oracle of harness/src/bin/c07.rs).              *)
+(* The full file-level statement over bytes, kept visible; it is NOT proved in this generality *)
+(* (the end-to-end claim is exercised on the implementation by the `rt` oracle of              *)
+(* harness/src/bin/c07.rs).  What IS proved of it: c07_file_roundtrip and                      *)
+(* c07_file_record_rendering at the end of this file (NV.CramRec.File).                        *)
 Definition c07_file_roundtrip_full_statement
   (Options Header Record File Line : Type)
   (write : Options -> Header -> list Record -> option File)   (* None: not accepted *)
@@ -792,3 +797,177 @@ Example c07_shdr_ex_ref_without_start :
   /\ shdr_rows shdr_ex_refsq 3 [shdr_ex_u; shdr_ex_nostart] =
     SOk [mk_row true (-2) 0 0 2 0 0 false; mk_row false (-2) 0 0 2 0 (-1) false].
 Proof. split; vm_compute; reflexivity. Qed.
+
+(* ------------------------------------------------------------------------------------------ *)
+(* The FILE level (NV.CramRec.File): records -> slices of records_per_slice -> file -> records. *)
+
+(* THE FILE-LEVEL ROUND TRIP, with the one premise that is still opaque spelled out: [ser] / [de]
+   are the serialisation of a slice's records into its core / external blocks and back (every data
+   series other than the five mate series, the block codecs, the compression header), and the
+   premise says that a slice's stored records are read back as written.  Then, for every reference
+   list, every records_per_slice >= 1 and every stream of SAM records - any number of slices,
+   templates inside a slice and across slices, any mix of mapped / unmapped / secondary records:
+   the reader never fails on a file the writer produced; the writer fails only if it refuses a
+   record (InvalidInput); and the records come back in order, as many as were written, each with the
+   FLAG / RNEXT / PNEXT / TLEN of the input and with the name, reference id, alignment start, read
+   length and features that Record::try_from_alignment_record made of it (the features of a record
+   flagged unmapped are not written); the file has one slice per chunk of records_per_slice
+   records. *)
+Theorem c07_file_roundtrip :
+  forall (B : Type) (ser : list mrec -> B) (de : B -> option (list mrec)),
+  (forall st, de (ser st) = Some st) ->
+  forall refs rps ss, (1 <= rps)%nat ->
+    file_rt_gen B ser de refs rps ss <> MReadErr /\
+    (file_rt_gen B ser de refs rps ss = MWriteErr <-> file_write_gen B ser refs rps ss = None) /\
+    forall out, file_rt_gen B ser de refs rps ss = MOk out ->
+      exists rs f, convert_all refs ss = Some rs /\ file_write_gen B ser refs rps ss = Some f /\
+        length f = length (chunks rps rs) /\
+        length out = length ss /\
+        map mate_view out = map (fun s => (s_flags s, s_mref s, s_mstart s, s_tlen s)) ss /\
+        map stat_view out = map stat_view (map drop_unmapped_feats rs).
+Proof. exact file_roundtrip_gen. Qed.
+Print Assumptions c07_file_roundtrip.
+
+(* ... down to CIGAR and bases: the x-th record of the stream, if it is a well-formed mapped record
+   ([mapped_wf]: not flagged unmapped, on a reference of the repository, bases and a CIGAR of
+   positive ops that fits them and lies inside the reference), is the x-th record read back from
+   the executable file model, with the input CIGAR (=/X as M, adjacent ops merged), the input bases
+   up to case, and the input FLAG, name, RNAME id, POS, RNEXT, PNEXT, TLEN - whatever the other
+   records of the stream are and whatever slice it falls into *)
+Theorem c07_file_record_rendering : forall refs rps ss out x s rf st, (1 <= rps)%nat ->
+  file_rt refs rps ss = MOk out -> nth_error ss x = Some s -> mapped_wf refs s rf st ->
+  exists o, nth_error out x = Some o /\
+    mate_view o = (s_flags s, s_mref s, s_mstart s, s_tlen s) /\
+    m_name o = s_name s /\ m_ref o = s_ref s /\ m_start o = s_start s /\
+    rec_cigar o = simplify (norm_ops (s_ops s)) /\
+    exists b, rec_bases refs o = Some b /\ eq_nocase_list b (s_seq s) = true.
+Proof. exact file_record_rendering. Qed.
+Print Assumptions c07_file_record_rendering.
+
+(* the slice layout of the file: every slice holds between 1 and records_per_slice records, and
+   together they hold every record of the stream *)
+Theorem c07_file_layout : forall refs rps ss l, (1 <= rps)%nat ->
+  file_layout refs rps ss = Some l ->
+  Forall (fun n => (1 <= n <= rps)%nat) l /\ fold_right Nat.add 0%nat l = length ss.
+Proof. exact file_layout_chunks. Qed.
+Print Assumptions c07_file_layout.
+
+(* the reader's mate_indices with the bound test made on binary numbers before the distance
+   becomes a unary nat (what the extracted model runs, so that NF = 2^31 - 1 is answered at once)
+   is the function the chain theorems are about *)
+Theorem c07_mate_indices_binary_is_unary : forall rs, resolve_mates_bin rs = resolve_mates rs.
+Proof. exact resolve_mates_bin_eq. Qed.
+Print Assumptions c07_mate_indices_binary_is_unary.
+
+(* HOSTILE mate distances: the reader answers InvalidData exactly when some record's mate distance
+   points at or past the end of the slice - for every slice, however large the distance *)
+Theorem c07_hostile_mate_distance_rejected_iff : forall rs,
+  resolve_mates_bin rs = None <->
+  exists x d, (x < length rs)%nat /\ m_dist (rget rs x) = Some d /\
+              N.of_nat (length rs) <= N.of_nat x + d + 1.
+Proof. exact resolve_mates_bin_error_iff. Qed.
+Print Assumptions c07_hostile_mate_distance_rejected_iff.
+
+(* ... and whatever it accepts - any CRAM flags, any chains, converging ones included - it returns
+   as many records and changes nothing of a record but FLAG, RNEXT, PNEXT and TLEN *)
+Theorem c07_resolve_mates_frame : forall rs out,
+  resolve_mates_bin rs = Some out ->
+  length out = length rs /\ map stat_all out = map stat_all rs.
+Proof.
+  intros rs out H. split; [exact (resolve_mates_length rs out H)|exact (resolve_mates_frame rs out H)].
+Qed.
+Print Assumptions c07_resolve_mates_frame.
+
+(* non-vacuity: a stream of three records cut into two slices (records_per_slice 2): a linked pair
+   in the first slice, its third segment alone in the second; a hostile slice whose NF is
+   2^31 - 1 is refused by computation, one with NF >= 2^31 too, and a valid distance resolves *)
+Definition file_ex_ref : list N := [65;67;71;84;65;67;71;84;65;67;71;84;65;67;71;84;65;67;71;84].
+Definition file_ex_a : samrec :=
+  samrec_of 97 (Some [113]) (Some 0) (Some 2) [(KM, 4)] [67;71;84;65] [30;30;30;30] (Some 0) (Some 10) 12%Z.
+Definition file_ex_b : samrec :=
+  samrec_of 145 (Some [113]) (Some 0) (Some 10) [(KEq, 2); (KX, 2)] [67;71;65;65] [30;30;30;30] (Some 0) (Some 2) (-12)%Z.
+Definition file_ex_c : samrec :=
+  samrec_of 65 (Some [113]) (Some 0) (Some 5) [(KS, 1); (KM, 3)] [84;65;67;71] [30;30;30;30] None None 0%Z.
+
+Example c07_file_nonvacuous :
+  file_layout [file_ex_ref] 2 [file_ex_a; file_ex_b; file_ex_c] = Some [2; 1]%nat /\
+  match file_rt [file_ex_ref] 2 [file_ex_a; file_ex_b; file_ex_c] with
+  | MOk out =>
+      map mate_view out = [(97, Some 0, Some 10, 12%Z); (145, Some 0, Some 2, (-12)%Z); (65, None, None, 0%Z)] /\
+      map rec_cigar out = [[(KM, 4)]; [(KM, 4)]; [(KS, 1); (KM, 3)]] /\
+      map (rec_bases [file_ex_ref]) out = [Some [67;71;84;65]; Some [67;71;65;65]; Some [84;65;67;71]] /\
+      map m_dist (match file_write [file_ex_ref] 2 [file_ex_a; file_ex_b; file_ex_c] with
+                  | Some (s0 :: _) => s0 | _ => [] end) = [Some 0; None]
+  | _ => False
+  end /\
+  mapped_wf [file_ex_ref] file_ex_b file_ex_ref 10.
+Proof.
+  split; [vm_compute; reflexivity|]. split; [vm_compute; repeat split; reflexivity|].
+  unfold mapped_wf. repeat split; try (vm_compute; reflexivity); try discriminate.
+  - exists 0. split; reflexivity.
+  - repeat constructor.
+Qed.
+
+Example c07_hostile_distance_witnesses :
+  mdist_rt [file_ex_ref] [file_ex_c; file_ex_c] [(4, 2147483647); (2, 0)] = MReadErr /\
+  mdist_rt [file_ex_ref] [file_ex_c; file_ex_c] [(4, 4294967295); (2, 0)] = MReadErr /\
+  mdist_rt [file_ex_ref] [file_ex_c; file_ex_c] [(4, 1); (2, 0)] = MReadErr /\
+  match mdist_rt [file_ex_ref] [file_ex_c; file_ex_c] [(4, 0); (6, 7)] with
+  | MOk out => map mate_view out = [(65, Some 0, Some 5, 3%Z); (65, Some 0, Some 5, (-3)%Z)]
+  | _ => False
+  end.
+Proof. vm_compute. repeat split; reflexivity. Qed.
+
+(* ------------------------------------------------------------------------------------------ *)
+(* The read-name series (RN) at the byte level (NV.CramRec.FileNames): ByteArrayStop with stop   *)
+(* byte 0x00; the serialisation premise of c07_file_roundtrip made concrete for this series.     *)
+
+(* the RN block of a slice decodes to the names that were written, for every slice whose names
+   hold no NUL byte and are not the literal `*` (which IS the missing name); whatever follows the
+   block's last name is left untouched *)
+Theorem c07_names_series_roundtrip : forall rs rest, names_ok rs ->
+  dec_names (length rs) (enc_names rs ++ rest) = Some (map m_name rs, rest).
+Proof. exact dec_enc_names. Qed.
+Print Assumptions c07_names_series_roundtrip.
+
+(* the file whose slices carry their names as the bytes of the RN block ([file_rt_names]) is the
+   value-level file on every stream of such names, so the file-level round trip holds with the
+   names going through the byte level: the records come back in order with FLAG / RNEXT / PNEXT /
+   TLEN, the NAME, and the name-independent fields of the converted records *)
+Theorem c07_file_roundtrip_with_names : forall refs rps ss, (1 <= rps)%nat -> stream_names_ok ss ->
+  file_rt_names refs rps ss = file_rt refs rps ss /\
+  file_rt_names refs rps ss <> MReadErr /\
+  forall out, file_rt_names refs rps ss = MOk out ->
+    length out = length ss /\
+    map mate_view out = map (fun s => (s_flags s, s_mref s, s_mstart s, s_tlen s)) ss /\
+    map m_name out = map s_name ss /\
+    exists rs, convert_all refs ss = Some rs /\
+      map stat_view out = map stat_view (map drop_unmapped_feats rs).
+Proof.
+  intros refs rps ss Hk Hs. split; [exact (file_rt_names_eq refs rps ss Hk Hs)|].
+  exact (file_roundtrip_names refs rps ss Hk Hs).
+Qed.
+Print Assumptions c07_file_roundtrip_with_names.
+
+(* REFUTED without the premise on the names (known class
+   cram-read-name-with-nul-byte-shifts-names): the writer accepts a name with a NUL byte, and the
+   records of that slice read back with shifted names - `a\0b`, `c`, `d` come back as `a`, `b`, `c` *)
+Definition names_ex (nm : list N) (pos : N) : samrec :=
+  samrec_of 65 (Some nm) (Some 0) (Some pos) [(KM, 4)] [67;71;84;65] [30;30;30;30] None None 0%Z.
+Theorem c07_names_nul_refuted : exists refs rps ss out,
+  (1 <= rps)%nat /\ file_rt_names refs rps ss = MOk out /\ map m_name out <> map s_name ss.
+Proof.
+  exists [file_ex_ref], 3%nat, [names_ex [97;0;98] 2; names_ex [99] 6; names_ex [100] 10].
+  eexists. split; [repeat constructor|]. split; [vm_compute; reflexivity|]. vm_compute. discriminate.
+Qed.
+Print Assumptions c07_names_nul_refuted.
+
+Example c07_names_nonvacuous :
+  stream_names_ok [file_ex_a; file_ex_b; file_ex_c] /\
+  file_name_blocks [file_ex_ref] 2 [file_ex_a; file_ex_b; file_ex_c] = Some [[113;0;113;0]; [113;0]] /\
+  file_name_blocks [file_ex_ref] 3 [names_ex [97;0;98] 2; names_ex [99] 6; names_ex [100] 10]
+    = Some [[97;0;98;0;99;0;100;0]].
+Proof.
+  split; [|split; vm_compute; reflexivity].
+  repeat constructor; cbn; try (intros [H|[]]; discriminate); discriminate.
+Qed.
